@@ -810,7 +810,7 @@ class Interp:
             if k == 2:
                 return V.Val.dkeys(zo)
             if k == 3:
-                raise Unsupported("iteration over a symbolic range")
+                return V.RangeSeq(V.Val.lo(zo), V.Val.hi(zo))
             raise PyRaise("TypeError", msg="object is not iterable")
         raise Unsupported(f"iter_seq {v!r}")
 
@@ -946,6 +946,10 @@ class Interp:
             selfv = fr.env.get(fr.func_first_arg) if hasattr(fr, "func_first_arg") else first
             return SuperProxy(fr.cls_ctx, selfv)
         f = self.eval(fn, fr)
+        if isinstance(f, C) and f.v in (_builtins.any, _builtins.all, _builtins.sum) and len(node.args) == 1 and isinstance(
+                node.args[0], ast.GeneratorExp) and not node.keywords:
+            from .comp import fold_genexp
+            return fold_genexp(self, f.v.__name__, node.args[0], fr)
         args = []
         for a in node.args:
             if isinstance(a, ast.Starred):
@@ -984,6 +988,9 @@ class Interp:
             return call_builtin_method(self, f, args, kwargs)
         if isinstance(f, C):
             x = f.v
+            if getattr(x, "__module__", None) == "spec.prims":
+                from .prims_model import call_prim
+                return call_prim(self, x.__name__, args, kwargs)
             if isinstance(x, tuple) and len(x) == 2 and x[0] == "object":
                 # object.__init__ / object.__new__ reached through super()
                 if x[1] == "__new__":
